@@ -210,9 +210,12 @@ func runOp(r *lib.Run, line string) {
 
 // ---------------------------------------------------------------- generator
 
-func genDAG(rng *lib.Rng, r *lib.Run) *sched.Case {
-	shapes := []string{"random", "random", "diamond", "fanin", "chain", "layers", "tworoots"}
+func genDAG(rng *lib.Rng, r *lib.Run, force string) *sched.Case {
+	shapes := []string{"random", "random", "diamond", "fanin", "chain", "layers", "tworoots", "provides-late"}
 	shape := lib.Pick(rng, shapes)
+	if force != "" {
+		shape = force
+	}
 	r.Count("shape:" + shape)
 	c := &sched.Case{}
 	add := func(deps ...int) int {
@@ -220,6 +223,31 @@ func genDAG(rng *lib.Rng, r *lib.Run) *sched.Case {
 		return len(c.Targets) - 1
 	}
 	switch shape {
+	case "provides-late":
+		// t requires "lang" and depends on d; d provides {"lang": [p1..pk]} (one declared dependency resolves to
+		// several targets); p1's post-build function attaches the slow x to t while t is waiting
+		k := 2 + rng.Intn(2)
+		var ps []int
+		for i := 0; i < k; i++ {
+			ps = append(ps, add())
+		}
+		d := add()
+		c.Targets[d].Provides = ps
+		x := add()
+		c.Targets[x].SleepMs = 400 + rng.Intn(600)
+		var extra []int
+		if rng.Bool() {
+			extra = append(extra, add())
+		}
+		t := add(append([]int{d}, extra...)...)
+		c.Targets[t].Requires = true
+		adder := ps[rng.Intn(len(ps))]
+		c.Targets[adder].PostAdd = [][2]int{{t, x}}
+		top := t
+		if rng.Bool() {
+			top = add(t)
+		}
+		c.Roots = []int{top}
 	case "diamond":
 		a := add()
 		k := 2 + rng.Intn(4)
@@ -282,6 +310,9 @@ func genDAG(rng *lib.Rng, r *lib.Run) *sched.Case {
 		}
 	}
 	pkgs := 1 + rng.Intn(3)
+	if shape == "provides-late" {
+		pkgs = 1 // add_dep and the provide labels are package-relative
+	}
 	for i := range c.Targets {
 		c.Targets[i].Pkg = rng.Intn(pkgs)
 	}
@@ -306,7 +337,11 @@ func main() {
 	}
 	var cases []*sched.Case
 	for i := 0; i < r.N(12, 100); i++ {
-		base := genDAG(r.Rng, r)
+		force := ""
+		if i%4 == 1 {
+			force = "provides-late" // every run has the require/provide + late add_dep shape several times
+		}
+		base := genDAG(r.Rng, r, force)
 		for _, par := range []int{1, 2, 4, 16} {
 			c := *base
 			c.Par = par
